@@ -152,12 +152,14 @@ def replay(b: dict) -> dict:
 
 def main(tier: str) -> int:
     if core.replay_arg():
+        if json.loads(open(core.replay_arg()).read())["stimulus"].get("bits"):
+            return core.replay_file(core.replay_arg(), PROP, "c17b", "IndexMaps_Bits_Trace")
         return core.replay_file(core.replay_arg(), PROP, "c17", "Helpers_Trace")
     out = Outcome(PROP, tier)
     jobs = []
     for s in shapes(tier):
         jobs.append(dict(module="Helpers_Gen", cfg_text=cfg("index", 1), defs={"ShapeC": tla.tla(list(s))}))
-    for fam in ("dims", "rows2", "rows1", "kr"):
+    for fam in ("dims", "rows2", "rows1", "kr", "long"):
         jobs.append(dict(module="Helpers_Gen", cfg_text=cfg(fam, 4 if tier == "quick" else 5),
                          defs={"ShapeC": "<<1>>"}, timeout=3000))
     results = tla.run_many(jobs)
@@ -170,6 +172,17 @@ def main(tier: str) -> int:
     out.notes["events_generated"] = len(events)
     from collections import Counter
     out.notes["events_per_op"] = dict(Counter(e["op"] for e in events))
+    # power-of-two shapes with up to 2^62 cells: subscripts and linear indices as bit strings (IndexMaps_Bits); one side
+    # of each pair is a single mode, so the resplit is exactly sub2ind / ind2sub
+    pairs = ("{<<<<20, 20, 20>>, <<60>>>>, <<<<60>>, <<20, 20, 20>>>>, <<<<55, 3, 2>>, <<60>>>>, <<<<60>>, <<7, 53>>>>, "
+             "<<<<61>>, <<2, 3, 56>>>>, <<<<31, 31>>, <<62>>>>, <<<<62>>, <<31, 31>>>>, <<<<54>>, <<27, 27>>>>}")
+    rb = tla.run_tlc("IndexMaps_Bits_Gen", "SPECIFICATION Spec\nINVARIANT RoundTrip\nINVARIANT Injective\n", defs={"Pairs": pairs},
+                     timeout=1500)
+    out.add_tlc(rb)
+    out.notes["bit_string_behaviours"] = len(rb.json)
+    import c17b
+    core.pipeline(out, "c17b", rb.json, "IndexMaps_Bits_Trace", lock_mode="superset",
+                  site_of=lambda tr, k: c17b.site(tr["ev"][k - 1]["args"]))
     core.pipeline(out, "c17", behaviours, "Helpers_Trace", lock_mode="superset",
                   site_of=lambda tr, k: SITE[tr["ev"][k - 1]["op"]])
     out.rule = ("every stimulus of Helpers_Gen: all subscripts of every shape in scope (both directions, "
